@@ -606,11 +606,9 @@ namespace bloch::compiler {
                 return false;  // primitives cannot satisfy type params
             if (actual.isTypeParam)
                 return expected.className == actual.className;
-            if (auto bound = getTypeParamBound(expected.className)) {
-                if (!bound->className.empty())
-                    return isAssignableType(*bound, actual);
-            }
-            return true;
+            // Only a value of type T is a T: a class satisfying T's bound is not (T may stand for
+            // a subclass of it, or - unbounded - for string). A value of unknown type is let through.
+            return actual.className.empty();
         }
 
         if (expectedIsArray) {
